@@ -55,20 +55,29 @@ class C12(Prop):
                        "tuple": lambda: tuple(members), "frozenset": lambda: frozenset(members)}[form]()
                 e = {"ev": "Mask", "form": form, "days": days, "raised": False, "out": []}
                 try:
+                    before = list(arg) if form in ("list", "tuple") else None
                     e["out"] = text(weekdays_to_hexadecimal(arg))
+                    if before is not None and list(arg) != before:
+                        e["out"] = text("input-mutated")
                 except Exception as x:  # noqa: BLE001
                     e["raised"] = True
                     e["exc"] = type(x).__name__
                 evs.append(e)
         else:
-            for m in scn["masks"]:
-                e = {"ev": "Days", "mask": m, "raised": False, "out": []}
-                try:
-                    e["out"] = sorted(d.weekday for d in bit_summary_to_days(m))
-                except Exception as x:  # noqa: BLE001
-                    e["raised"] = True
-                    e["exc"] = type(x).__name__
-                evs.append(e)
+            for rnd in (0, 1):          # second round: every result of the first round has been tampered with by its caller
+                for m in scn["masks"]:
+                    e = {"ev": "Days", "mask": m, "raised": False, "out": [], "round": rnd}
+                    try:
+                        got = bit_summary_to_days(m)
+                        e["out"] = sorted(d.weekday for d in got)
+                        try:
+                            got.clear()     # what a caller does with its own result must not leak into later calls
+                        except Exception:  # noqa: BLE001 - an immutable result is fine too
+                            pass
+                    except Exception as x:  # noqa: BLE001
+                        e["raised"] = True
+                        e["exc"] = type(x).__name__
+                    evs.append(e)
         return evs
 
     def nontrivial(self, ev):
@@ -90,6 +99,12 @@ class C14(Prop):
     def scenarios(self, ctx: Ctx):
         self.exhaustive = not ctx.quick
         out = []
+        # the duration of a schedule does not depend on the host's zone or on today's date (DST-change days included)
+        for z, (y, m, d) in (("Asia/Jerusalem", (2026, 3, 27)), ("Asia/Jerusalem", (2026, 10, 25)), ("America/New_York", (2026, 11, 1)),
+                             ("Europe/London", (2026, 3, 29)), ("Australia/Lord_Howe", (2026, 4, 5)), ("Pacific/Kiritimati", (2026, 12, 31))):
+            rows = [{"s": s, "es": sorted({(s + k) % 1440 for k in (0, 1, 59, 60, 61, 119, 120, 180, 240, 600, 1380, 1439)} | {0, 30, 60, 90, 120, 150, 180, 240})}
+                    for s in range(0, 1440, ctx.pick(30, 5))]
+            out.append({"rows": rows, "zone": z, "date": [y, m, d]})
         chunk = []
         for s in range(1440):
             if ctx.quick:
@@ -106,6 +121,10 @@ class C14(Prop):
         return out
 
     def execute(self, scn):
+        if "zone" in scn and not scn.get("_inner"):
+            y, m, d = scn["date"]
+            with host_zone(scn["zone"]), frozen(float(local_instant(scn["zone"], y, m, d, 12, 0))):
+                return self.execute(dict(scn, _inner=True))
         from aioswitcher.schedule.tools import calc_duration
         evs = []
         for row in scn["rows"]:
@@ -167,7 +186,7 @@ class C11(Prop):
         zones = ZONES_QUICK if ctx.quick else ZONES_ALL
         for z in zones:
             for (y, m, d) in _dates_for(z, ctx):
-                for hh in ((12,) if ctx.quick else (0, 12, 23)):
+                for hh in (0, 12, 23):
                     out.append({"zone": z, "date": [y, m, d], "now_hh": hh, "seed": ctx.rng.randrange(1 << 30)})
         return out
 
@@ -180,7 +199,7 @@ class C11(Prop):
         z = scn["zone"]
         y, m, d = scn["date"]
         hh = scn["now_hh"]
-        now = local_instant(z, y, m, d, hh, 30 if hh != 23 else 59, 17)
+        now = local_instant(z, y, m, d, hh, {0: 0, 12: 30, 23: 59}[hh], 17 if hh else 1)
         rules = zone_rules(z, now)
         evs = []
         with host_zone(z), frozen(float(now) + 0.25):
